@@ -107,7 +107,8 @@ def judge(obs, ref, layout, cut, marker):
 
 
 def run_file(item):
-    name, hist, seed, marker = item
+    name, hist, seed, marker = item[:4]
+    data_only = len(item) > 4 and item[4]
     if marker:
         hist = [dict(s) for s in hist]
         hist[-1]['marker'] = True
@@ -115,7 +116,7 @@ def run_file(item):
     res = {'counters': {'files': 1, 'cuts': 0, 'nontrivial': 0, 'cuts_in_data': 0}, 'outcomes': {}, 'violations': [],
            'samples': [], 'distinct': set()}
     reported = set()
-    for cut in range(4, len(data) + 1):
+    for cut in range(layout[-1]['data_start'] if data_only else 4, len(data) + 1):
         d = data[:cut]
         res['counters']['cuts'] += 1
         inside = any(s['data_start'] < cut < s['end'] for s in layout)
@@ -169,6 +170,13 @@ def run(ctx):
     from ..run import merge
     fl = F.f6_files(ctx.tier)
     items = [(n, h, ctx.seed, False) for n, h in fl] + [(n, h, ctx.seed, True) for n, h in fl if marker_ok(n, h)]
+    # chunks of every length 4..128 (interleaved rows of 6 bytes; contiguous Int16 + Int32), cut at every byte of the raw data:
+    # how many values of a cut chunk survive is a proportion, and proportions computed inexactly go wrong for particular lengths
+    for n in range(4, 129):
+        for il in (True, False):
+            h = [F.G.seg([(F.B, ['FULL', 'Int16', n]), (F.A, ['FULL', 'Int32', n])], chunks=2, interleaved=il)]
+            for marker in (False, True):
+                items.append(('int16+int32/%s-len%d' % ('interleaved' if il else 'contiguous', n), h, ctx.seed, marker, True))
     m = merge(ctx.map(run_file, items))
     c = m['counters']
     vac = [] if c.get('cuts_in_data') else ['no cut fell inside raw data']
